@@ -135,6 +135,16 @@ CLAIMED["C13"] = dict(
          "CumDOS corollaries follow (formula = group size); the tetrahedron branch is covered under C14.",
     note=TB + "; uniform Fermi grid taken from the property statement; interaction of more than one moving group is covered only through three background configurations")
 
+CLAIMED["C25"] = dict(
+    text="SOC.get_C_ss/get_pauli_rotated (real text, real numpy einsum on symbolic scalars): for ALL quantisation axes (half-angle cosines "
+         "and sines as reals on the unit circle) the rotated Pauli matrices are Hermitian, satisfy sigma_a sigma_b = delta_ab + i eps_abc "
+         "sigma_c and n.sigma' = diag(+1,-1) -- unbounded in the angles (18 polynomial identities modulo c^2+s^2=1). double_spin of system "
+         "and R-vectors, Data_K_soc.HH_K assembly, SystemSOC.set_soc_axis block structure (nspin 1 and 2, alpha scaling, conjugated "
+         "(1,0) blocks) and merge_Rvectors + get_system_R (different R-sets): proved for all complex matrix entries at small fixed shapes. "
+         "'Same spectrum' then follows from block structure (H (x) 1_2; block diagonal without SOC) with the standard spectral facts as "
+         "stated assumptions. Bounded stand-in: real doubled systems have every band twice at random k.",
+    note=TB + "; assumed: cos^2+sin^2=1, exp(-ix)=cos x - i sin x, double-angle formulas; a block-diagonal matrix has the union of the blocks' spectra, A (x) 1_2 has every eigenvalue of A twice")
+
 NOT_APPLICABLE = {
     "C20": "real-space symmetrisation is a data-dependent floating-point orbit search over irrep objects; its postcondition is only statable through an eigen-solver, no discrete/algebraic kernel is left once externals are abstracted (DESIGN section 7)",
     "C21": "rotation matrices are produced inside sympy (polynomial expansion + evalf); orthogonality/composition live in that CAS computation, outside any contract this engine can generate VCs for (DESIGN section 7)",
